@@ -346,6 +346,10 @@ func (o *DatReaderOptimizer) Optimize(rules []*config_parser.RoutingRule) ([]*co
 						params, loadErr = o.loadGeoIp("geoip", param.Val)
 					case "ext":
 						fields := strings.SplitN(param.Val, ":", 2)
+						if len(fields) != 2 {
+							loadErr = fmt.Errorf("bad ext format %q: expect ext:\"<file>:<code>\"", param.Val)
+							break
+						}
 						switch f.Name {
 						case consts.Function_Domain, consts.Function_QName:
 							params, loadErr = o.loadGeoSite(fields[0], fields[1])
